@@ -93,15 +93,16 @@ def replay(ctx, cases, count=None, label="front-replay"):
     P = props.proj_abort_only
     a, b = judges.do_stream(ctx, label + "-inprocess", (gen.hist_case(s["id"], front.session_texts(s), tab=s["tab"]) for s in sessions), P, impl_only=True)
     mism = 0
+    BANNER, GOODBYE = front.framing(ctx)
     for s in sessions:
         obs = a.get(s["id"], [])
         if any(l.split(" ")[0] in ("PANIC", "CRASH", "TIMEOUT") for l in obs):
             continue            # reported by the in-process stream itself
         if s["expr"] is None:
             if s["file"] is not None:
-                pred = front.predicted_stdout(obs, only_text=0) + front.BANNER + "\n" + front.predicted_stdout(obs, skip_text=0) + front.GOODBYE + "\n"
+                pred = front.predicted_stdout(obs, only_text=0) + BANNER + "\n" + front.predicted_stdout(obs, skip_text=0) + GOODBYE + "\n"
             else:
-                pred = front.BANNER + "\n" + front.predicted_stdout(obs) + front.GOODBYE + "\n"
+                pred = BANNER + "\n" + front.predicted_stdout(obs) + GOODBYE + "\n"
         else:
             pred = front.predicted_stdout(obs)
         rc, so, se = front.run_binary(ctx, s)
